@@ -148,6 +148,15 @@ def prop(case):
         got_by = Counter({k: v for k, v in links.items() if not any(c in (k[1][0], k[1][2]) for c in copies)})
         if by_l != got_by:
             raise Violation("bystander", "%s\nlinks not incident to the segment changed" % ctx)
+        # wherever the copies of the segment's edges end up, their counts are divided by k exactly once
+        src_by_marker = {r.tag("xx")[1]: r for r in recs if r.rt == "L" and r.tag("xx") and target in (r.pos[0], r.pos[2])}
+        for r in link_list:
+            mk = r.tag("xx")
+            if mk and mk[1] in src_by_marker and (r.pos[0] in copies or r.pos[2] in copies):
+                want_t = tagkey(src_by_marker[mk[1]].tags, factor)
+                if tagkey(r.tags) != want_t:
+                    raise Violation("self-link-counts", "%s\nlink %r: tags/counts %s, expected those of %r with the counts divided by %d once: %s" % (
+                        ctx, r.text(), tagkey(r.tags), src_by_marker[mk[1]].text(), factor, want_t), "counts")
         return {"nt": False, "factor": factor, "self_link": True}
 
     def sub(pos, c):
@@ -272,8 +281,7 @@ def build(r):
         for ct in COUNT:
             if gen.chance(r, 0.35):
                 tags.append([ct, "i", str(r.randint(0, 500))])
-        if gen.chance(r, 0.3):
-            tags.append(["xx", "Z", "t%d" % len(links)])
+        tags.append(["xx", "Z", "t%d" % len(links)])  # unique marker: identifies the source of a copied link
         links.append(["L", [f, fo, t, to, ov], tags])
 
     others = [x for x in names if x != target] or names
